@@ -6,7 +6,7 @@
    variables and biases, every first step, every history of steps / repeated steps / script
    enable-disable events.  Numbers are the reals (instance Rops); [fixed] / [efix] select the code
    before / after the two repairs of branch fix-C08 (true = repaired, the tree the check is tied to). *)
-From Coq Require Import ZArith List Bool Reals.
+From Coq Require Import ZArith List Bool Reals Permutation.
 From CV Require Import Base.Num Base.RNum C08.ModuleModel C08.ModuleProofs C17.ExtLagModel C17.ExtLagProofs C08.ExtCompose C08.AbfCompose.
 Import ListNotations.
 Local Open Scope R_scope.
@@ -332,3 +332,17 @@ Example C08_scaled_force_example :
                [EStep (wx 1); EStep (wx 1); EStep (wx 7)])
   = [(0, [true], [true], 0, -6); (1, [false], [false], 0, 0); (2, [true], [true], 0, -14)]%Z.
 Proof. exact witness_scaled. Qed.
+
+(* The order of the biases in the module's list does not matter: for any permutation of the bias list the force on every
+   coordinate and the energy of every calc() are the same (real arithmetic; this is the rule behind evaluating the biases
+   in any order or in parallel, C12). *)
+Theorem C08_order_independent :
+  forall (BS : Type) (fixed efix : bool) (it0 : Z) (tsfs : list Z) (cfgs cfgs' : list (@bias_cfg R BS))
+         (evs : list (@ModuleModel.event R)) (j : nat),
+    Permutation cfgs cfgs' ->
+    (forall k, nth_force (ModuleModel.run_cfg Rops fixed efix it0 tsfs cfgs evs) j k
+               = nth_force (ModuleModel.run_cfg Rops fixed efix it0 tsfs cfgs' evs) j k) /\
+    nth_energy (ModuleModel.run_cfg Rops fixed efix it0 tsfs cfgs evs) j
+    = nth_energy (ModuleModel.run_cfg Rops fixed efix it0 tsfs cfgs' evs) j.
+Proof. exact @order_independent. Qed.
+Print Assumptions C08_order_independent.
